@@ -1165,6 +1165,21 @@ def _infer_expr_type(
             if owner.id in sensors:
                 return "float"
 
+        if isinstance(owner, ast.Name) and ctx is not None:
+            # the remaining state queries: a variable that stores one must be able to hold it
+            if owner.id in ctx.get("dc_motor_names", set()):
+                if attr in {"get_speed", "get_applied_speed"}:
+                    return "float"
+                if attr == "get_mode":
+                    return "String"
+                if attr == "is_inverted":
+                    return "bool"
+            if owner.id in ctx.get("buzzer_names", set()):
+                if attr in {"get_frequency", "get_last_frequency"}:
+                    return "float"
+                if attr == "get_state":
+                    return "bool"
+
     if isinstance(node, ast.Call) and isinstance(node.func, ast.Name):
         fname = node.func.id
 
